@@ -8,6 +8,7 @@
 package main
 
 import (
+	"math"
 	"flag"
 	"fmt"
 	"image"
@@ -16,6 +17,7 @@ import (
 	"github.com/tdewolff/canvas"
 
 	"verifharness/internal/cq"
+	"verifharness/internal/gen"
 	"verifharness/internal/out"
 	"verifharness/internal/pd"
 	"verifharness/internal/rng"
@@ -494,6 +496,109 @@ func k2(r *rng.R, i int, o *out.W) {
 	o.Emit(out.Case{I: i, Fam: "k2:" + fam + ":" + pfam + ":" + ofam, Coq: term, Desc: desc})
 }
 
+// k4: Path.Dash on ONE elliptical arc with exact geometry (gen.Arc); the returned dashes are judged in Coq (Corr.C05.judge_k4)
+func k4(r *rng.R, i int, o *out.W) {
+	sx, sy := float64(r.Range(-40, 40))/4, float64(r.Range(-40, 40))/4
+	a := gen.Arc(r, sx, sy, r.Intn(3))
+	p := &canvas.Path{}
+	p.MoveTo(a.Sx, a.Sy)
+	p.ArcTo(a.Rx, a.Ry, a.RotDeg, a.Large, a.Sweep, a.Ex, a.Ey)
+	d := p.Data()
+	if len(d) != 12 || d[4] != canvas.ArcToCmd {
+		return
+	}
+	g4 := func(lo, hi int) float64 { return float64(r.Range(lo, hi)) / 4 }
+	var ds []float64
+	for k := 0; k < r.Range(1, 4); k++ {
+		ds = append(ds, g4(2, 40))
+	}
+	period := 0.0
+	for _, x := range ds {
+		period += x
+	}
+	if len(ds)%2 == 1 {
+		period *= 2
+	}
+	off := g4(-int(8*period), int(8*period))
+	var L float64
+	var q *canvas.Path
+	msg := ""
+	func() {
+		defer func() {
+			if e := recover(); e != nil {
+				msg = fmt.Sprint(e)
+			}
+		}()
+		L = p.Length()
+		q = p.Dash(off, append([]float64(nil), ds...)...)
+	}()
+	fam := "k4:arc"
+	if a.Rx == a.Ry {
+		fam = "k4:circle"
+	} else if a.SnN != 0 && a.CsN != 0 {
+		fam = "k4:rotated"
+	}
+	if a.Large {
+		fam += ":large"
+	}
+	desc := map[string]interface{}{"kind": "K4", "path": p.String(), "offset": off, "dashes": ds, "length": L, "panic": msg, "go": nil}
+	pt := func(x, y float64) string { return "(" + cq.F(x) + ", " + cq.F(y) + ")" }
+	if msg != "" {
+		term := fmt.Sprintf("K4 (mkK4 (mkA %s 1 1 1 0 %s %s false false 0 nil nil true) 0 nil)", pt(0, 0), pt(0, 0), pt(0, 0))
+		o.Emit(out.Case{I: i, Fam: fam, Coq: term, Desc: desc})
+		return
+	}
+	desc["go"] = q.String()
+	// number of dashes the pattern prescribes on a path of length L (description only; the judge computes its own)
+	{
+		dd := ds
+		if len(dd)%2 == 1 {
+			dd = append(append([]float64{}, dd...), dd...)
+		}
+		per := 0.0
+		for _, x := range dd {
+			per += x
+		}
+		nd := 0
+		if per > 0 {
+			pos := math.Mod(off, per)
+			if pos < 0 {
+				pos += per
+			}
+			// walk the pattern from -pos
+			x, k := -pos, 0
+			for x < L {
+				if k%2 == 0 && x+dd[k%len(dd)] > 0 && dd[k%len(dd)] > 0 {
+					nd++
+				}
+				x += dd[k%len(dd)]
+				k++
+			}
+		}
+		desc["spec_dashes"] = nd
+	}
+	var ps []string
+	for _, sp := range q.Split() {
+		qd := sp.Data()
+		if len(qd) != 12 || qd[4] != canvas.ArcToCmd {
+			ps = append(ps, fmt.Sprintf("(mkAP false false false %s %s %s)", pt(0, 0), pt(0, 0), cq.F(0)))
+			continue
+		}
+		same := qd[5] == d[5] && qd[6] == d[6] && qd[7] == d[7]
+		large, sweep := qd[8] == 1 || qd[8] == 3, qd[8] == 2 || qd[8] == 3
+		ps = append(ps, fmt.Sprintf("(mkAP %s %s %s %s %s %s)", cq.Bool(same), cq.Bool(large), cq.Bool(sweep), pt(qd[1], qd[2]), pt(qd[9], qd[10]), cq.F(sp.Length())))
+	}
+	qn := func(n, dn int64) string {
+		if n < 0 {
+			return fmt.Sprintf("((-%d) # %d)", -n, dn)
+		}
+		return fmt.Sprintf("(%d # %d)", n, dn)
+	}
+	arc := fmt.Sprintf("(mkA %s %s %s %s %s %s %s %s %s %s nil %s false)", pt(a.Cx, a.Cy), cq.F(a.Rx), cq.F(a.Ry), qn(a.CsN, a.H), qn(a.SnN, a.H), pt(a.Sx, a.Sy), pt(a.Ex, a.Ey),
+		cq.Bool(a.Large), cq.Bool(a.Sweep), cq.F(L), cq.List(ps))
+	o.Emit(out.Case{I: i, Fam: fam, Coq: fmt.Sprintf("K4 (mkK4 %s %s %s)", arc, cq.F(off), cq.Floats(ds)), Desc: desc})
+}
+
 func main() {
 	seed := flag.Uint64("seed", 1, "")
 	n := flag.Int("n", 100, "")
@@ -508,7 +613,9 @@ func main() {
 			continue
 		}
 		r := root.Fork(uint64(i))
-		if i%16 == 5 {
+		if i%16 == 13 {
+			k4(r, i, o)
+		} else if i%16 == 5 {
 			k3(r, i, o)
 		} else if *k2n > 0 && i%*k2n == *k2n-1 {
 			k2(r, i, o)
